@@ -208,6 +208,13 @@ func checkC17(sc *Scenario, acc *Acc) (*c17Fail, bool, bool) {
 		if !biok {
 			return nil, false, true
 		}
+		// a repair that HTML-escapes the values it puts into the built-in page is still the built-in page
+		biEsc := ""
+		if o := w.RunOp(Op{Kind: "evalstr", Src: loadDefaultErrPage(), Data: &Val{T: "map", K: []string{"path", "line", "message", "debugMode"},
+			V: []Val{VStr(html.EscapeString(str.Path)), {T: "int64", I: int64(str.Line)}, VStr(html.EscapeString(str.Msg)), VBool(cfg.Debug)}}}, Budget); o.Kind == "ok" {
+			biEsc = o.Out
+		}
+		isBuiltin := func(body string) bool { return body == bi || (biEsc != "" && body == biEsc) }
 		switch {
 		case cfg.ErrPage != "" && !cfg.Debug:
 			cp := w.RunOp(Op{Kind: "string", Name: cfg.ErrPage, Data: nil}, Budget)
@@ -215,11 +222,11 @@ func checkC17(sc *Scenario, acc *Acc) (*c17Fail, bool, bool) {
 				if resp.Body != cp.Out {
 					return &c17Fail{"a working custom error page is configured and debug is off, but the body is not that page", "body-not-custom-page", short(cp.Out), short(resp.Body)}, false, false
 				}
-			} else if resp.Body != "" && resp.Body != bi {
+			} else if resp.Body != "" && !isBuiltin(resp.Body) {
 				return &c17Fail{"the custom error page fails; the body must be empty or the built-in page", "custom-fails-body-neither-empty-nor-builtin", "\"\" or built-in page", short(resp.Body)}, false, false
 			}
 		default:
-			if resp.Body != bi {
+			if !isBuiltin(resp.Body) {
 				return &c17Fail{"the body is not the built-in error page for this error and debug mode", "body-not-builtin-page", short(bi), short(resp.Body)}, false, false
 			}
 		}
